@@ -126,11 +126,23 @@ def _trees_close(a, b) -> bool:
 
 
 def one_case(ctx: Ctx, doc, eps, mode: str, reqs: list, todo: list, stream: str) -> None:
+    """one document; an unexpected exception of the implementation is a failure of the case, never of the harness."""
+    try:
+        _one_case(ctx, doc, eps, mode, reqs, todo, stream)
+    except Exception as e:
+        import traceback
+        ctx.spec_fail("operation-raised", nc.make_input(doc, eps, mode),
+                      {"exception": repr(e)[:300], "where": traceback.format_exc()[-600:]}, nc.doc_size(doc))
+
+
+def _one_case(ctx: Ctx, doc, eps, mode: str, reqs: list, todo: list, stream: str) -> None:
     inp = nc.make_input(doc, eps, mode)
     size = nc.doc_size(doc)
     et = nc.eps_tokens(eps, mode)
     st, n = nc.load_impl(doc, eps)
     impl_line = nc.render_impl(n, mode) if st == "ok" else "err:" + n
+    if st != "ok" and n != "Assert":
+        ctx.spec_fail("operation-raised", inp, {"exception-class": n, "note": "the reader rejects with AssertionError only"}, size)
     reqs.append(f"{mode} load {et} {nc.enc_tree(doc, mode)}")
     todo.append(("load", inp, impl_line, None, size))
     ctx.count("verdict:" + ("accept" if st == "ok" else "reject"))
@@ -221,7 +233,7 @@ def run(ctx: Ctx) -> None:
                 "members with repeated members and weights absent / 1 / 1.0 / true / int / float; numbers tagged int / float "
                 "/ bool; 'Q' stream dyadic (exact, explicit tolerance), 'F' stream decimal / thirds / doubles (tolerance "
                 "undefined or explicit); non-trivial = accepted and at least one module; distinct = distinct documents")
-    n = ctx.n(500, 20000)
+    n = ctx.n(800, 20000)
     reqs, todo = [], []
     seeds = getattr(ctx, "seed_inputs", None) or []
     for inp in seeds[:50]:
